@@ -112,7 +112,10 @@ func ParseHeaderDirective(header http.Header) *HeaderDirectives {
 			if cc, err := parseCacheControl(value); err == nil {
 				hd.CacheControl.value = typeutils.Some(cc)
 			} else {
-				slog.Debug("Error parsing Cache-Control header", "error", err, "value", value)
+				// A Cache-Control header we cannot fully parse may still carry no-store/private or a
+				// shorter max-age, so it must not be ignored: treat the response as not reusable.
+				slog.Debug("Error parsing Cache-Control header, treating it as no-cache", "error", err, "value", value)
+				hd.CacheControl.value = typeutils.Some(cacheControl{noCache: true})
 			}
 		case "Expires":
 			if t, err := time.Parse(http.TimeFormat, value); err == nil {
